@@ -32,6 +32,7 @@ func WriteTree(dir string, files map[string]string) {
 // Outcome of generating one converter.
 type Outcome struct {
 	Name  string
+	File  string // file declaring the converter
 	Gen   string // ok | fail | panic
 	Why   string // panic value or diagnostic text
 	Files map[string][]byte
@@ -53,7 +54,7 @@ func GenerateEach(cfg *goverter.GenerateConfig) ([]Outcome, error) {
 	}
 	out := make([]Outcome, len(res))
 	for i, r := range res {
-		o := Outcome{Name: r.Name, Gen: "ok", Files: r.Files}
+		o := Outcome{Name: r.Name, File: r.File, Gen: "ok", Files: r.Files}
 		if r.Panic != nil {
 			o.Gen, o.Why = "panic", fmt.Sprint(r.Panic)
 		} else if r.Err != nil {
